@@ -111,6 +111,9 @@ int main(int argc, char** argv) {
         if (mine()) orgs<gil::png_tag, gil::rgba16_image_t, gil::rgba16_planar_image_t>("png", "rgba16", w, h, rng, gi, false, "", true);
         if (mine()) orgs<gil::png_tag, gil::bgr8_image_t, gil::rgb8_planar_image_t>("png", "bgr8", w, h, rng, gi, false, "", false);
         if (mine()) orgs<gil::png_tag, gil::bgra8_image_t, gil::rgba8_planar_image_t>("png", "bgra8", w, h, rng, gi, false, "", false);
+        { gil::image_write_info<gil::png_tag> gii; gii._interlace_method = PNG_INTERLACE_ADAM7;
+          if (mine()) orgs<gil::png_tag, gil::rgb8_image_t, gil::rgb8_planar_image_t>("png", "rgb8", w, h, rng, gii, true, "interlaced/", true);
+          if (mine()) orgs<gil::png_tag, gil::rgba16_image_t, gil::rgba16_planar_image_t>("png", "rgba16", w, h, rng, gii, true, "interlaced/", false); }
         struct TV { const char* name; int comp; bool tiled; };
         for (TV tv : {TV{"strip/none/", COMPRESSION_NONE, false}, TV{"strip/lzw/", COMPRESSION_LZW, false}, TV{"strip/deflate/", COMPRESSION_ADOBE_DEFLATE, false}, TV{"strip/packbits/", COMPRESSION_PACKBITS, false},
                       TV{"tile/none/", COMPRESSION_NONE, true}, TV{"tile/lzw/", COMPRESSION_LZW, true}}) {
